@@ -4,7 +4,7 @@ Require Import Cirbo.Model.Base Cirbo.Model.Gate Cirbo.Model.Den Cirbo.Model.Cir
         Cirbo.Model.Connect Cirbo.Model.History Cirbo.Model.WF.
 Require Import Cirbo.Proofs.DictFacts Cirbo.Proofs.WFBase Cirbo.Proofs.WFSimple Cirbo.Proofs.WFEmplace
         Cirbo.Proofs.WFRemove Cirbo.Proofs.WFReplaceInputs Cirbo.Proofs.WFRename Cirbo.Proofs.WFRename2
-        Cirbo.Proofs.WFCopy Cirbo.Proofs.WFBench.
+        Cirbo.Proofs.WFCopy Cirbo.Proofs.WFBench Cirbo.Proofs.WFReplaceSub.
 
 (* the invariant carried along a history: WF plus "INPUT gates have no operands" *)
 Definition Inv (c : circuit) : Prop := WF c /\ inputs_nullary c.
@@ -36,7 +36,7 @@ Definition covered (o : op) : bool :=
   | OpMarkOutput _ | OpSetOutputs _ | OpSetInputs _ | OpOrderInputs _ | OpOrderOutputs _
   | OpReplaceInputs _ _ | OpMakeBlock _ _ _ _ | OpMakeBlockFromSlice _ _ _
   | OpDeleteBlock _ | OpRemoveBlock _ | OpRename _ _ | OpCopy | OpBlockIntoCircuit _
-  | OpIntoBench _ => true
+  | OpIntoBench _ | OpReplaceSubcircuit _ _ _ _ => true
   | _ => false
   end.
 
@@ -91,6 +91,7 @@ Proof.
   - split; [eapply delete_block_wf; eassumption|].
     eapply nullary_same_gates; [|eassumption]. eapply (simple_gates c (OpDeleteBlock name)); [exact I|exact H].
   - split; [eapply remove_block_wf|eapply remove_block_nullary]; eassumption.
+  - destruct Hok as [Wo No]. eapply replace_subcircuit_inv; [exact W|exact N|exact Wo|exact No|exact H].
   - eapply into_bench_inv_le; eassumption.
   - eapply copy_circuit_wf; eassumption.
   - binv H b Hb. eapply block_into_circuit_wf; eassumption.
